@@ -189,6 +189,8 @@ class _Gen:
     def leaf(self, typ, shape):
         """a leaf of the given type and shape (variable, slice of a bigger variable, constant)."""
         draw = self.draw
+        if shape and int(np.prod(shape)) > MAX_SIZE:
+            raise ValueError('leaf too large')
         if typ == 'C':
             return ['const', _const_ir(draw, shape)], list(shape), 'C'
         kind = {'D': 'dvar', 'R': 'rvar', 'B': 'ldr'}[typ]
@@ -214,6 +216,8 @@ def case_strategy(draw, max_ops=6):
     g = _Gen(draw, front)
     typ = draw(st.sampled_from(['D', 'D', 'D', 'R', 'B']))
     shape = draw(_shape(0, 4))
+    while shape and int(np.prod(shape)) > MAX_SIZE:
+        shape = shape[1:]
     node, shape, typ = g.leaf(typ, shape)
     # sometimes start from a slice of a variable (VarSub / DecRuleSub)
     nops = draw(st.integers(1, max_ops))
